@@ -156,8 +156,8 @@ def record_validate(run, name, family, module, cfg, n, maxlen, xss='64m', timeou
                     pass
 
 
-LEX_QUICK = ['core3', 'multi4', 'uni4', 'num4', 'ws4', 'kw4', 'qnl4', 'cnl3']
-LEX_THOROUGH = ['core4', 'multi5', 'uni5', 'num5', 'ws5', 'kw5', 'qnl4', 'cnl4']
+LEX_QUICK = ['core3', 'multi4', 'uni4', 'num4', 'ws4', 'kw4', 'qnl4', 'cnl3', 'souplong4']
+LEX_THOROUGH = ['core4', 'multi5', 'uni5', 'num5', 'ws5', 'kw5', 'qnl4', 'cnl4', 'souplong5']
 
 
 def C12(run):
@@ -210,7 +210,7 @@ def C01(run):
                 '(ParserTotal: a verdict for every soup text, top-level loop bounded); non-trivial = non-blank text')
     run.assumptions += ['release-mode undefined behaviour without a symptom is not observable; the model checks the slice preconditions instead']
     quick = run.tier == 'quick'
-    for c in (['core3', 'uni3', 'kw4', 'soupfull2', 'souptiny3'] if quick else ['core4', 'uni4', 'kw5', 'multi5', 'soupfull3', 'soupcore4', 'souptiny5']):
+    for c in (['core3', 'uni3', 'kw4', 'soupfull2', 'souptiny3', 'souplong4'] if quick else ['core4', 'uni4', 'kw5', 'multi5', 'soupfull3', 'soupcore4', 'souptiny5', 'souplong5']):
         tlc_replay(run, 'total-' + c, 'MC_Lex.tla', 'MC_Lex_%s.cfg' % c, 'total', profiles=('debug', 'release'), timeout_ms=5000)
     # totality only: what the verdict is belongs to C02 / C13
     parser_soup(run, ['full2', 'tiny3', 'lines3'] if quick else ['full3', 'core4', 'tiny5', 'stmt6', 'lines4'], profiles=('debug', 'release'), family='total')
